@@ -74,7 +74,10 @@ func checkFloat(fn string, f float64) (sig, what string) {
 			if string(out) != "null" || len(errs) != 1 {
 				return fn + ":non-finite-not-null-plus-error", fmt.Sprintf("%s(%v) wrote %s with %d errors", fn, f, show(out), len(errs))
 			}
-			return "", ""
+			// the enclosing list / object stays well formed
+			return checkNested(fn, func() graphql.Marshaler {
+				return graphql.WrapContextMarshaler(responseCtx(), graphql.MarshalFloatContext(f))
+			}, nil)
 		}
 		if pan == nil && len(graphql.GetErrors(ctx)) != 0 {
 			return fn + ":finite-rejected", fmt.Sprintf("%s(%v) recorded an error", fn, f)
@@ -83,6 +86,18 @@ func checkFloat(fn string, f float64) (sig, what string) {
 	d, class, w := checkWire(out, pan, f, false)
 	if class != "" {
 		return fn + ":" + class, fmt.Sprintf("%s(%b = %v): %s", fn, f, f, w)
+	}
+	switch fn {
+	case "MarshalFloat":
+		if sig, what := checkNested(fn, func() graphql.Marshaler { return graphql.MarshalFloat(f) }, d); sig != "" {
+			return sig, fmt.Sprintf("%s(%v): %s", fn, f, what)
+		}
+	case "WrapContextMarshaler(MarshalFloatContext)":
+		if sig, what := checkNested(fn, func() graphql.Marshaler {
+			return graphql.WrapContextMarshaler(responseCtx(), graphql.MarshalFloatContext(f))
+		}, d); sig != "" {
+			return sig, fmt.Sprintf("%s(%v): %s", fn, f, what)
+		}
 	}
 	n := d.(json.Number)
 	var plain any
@@ -258,18 +273,45 @@ func (tc timeCase) time() time.Time {
 	return time.Date(tc.Y, time.Month(tc.Mo), tc.D, tc.H, tc.Mi, tc.S, tc.Ns, loc)
 }
 
+// timeRepresentable: RFC 3339 can express the value (displayed year 0..9999, zone offset in whole
+// minutes and below 24h). Only then do the "denotes the original" and round-trip clauses apply;
+// the validity clauses apply to EVERY time.Time.
+func timeRepresentable(t time.Time) bool {
+	_, off := t.Zone()
+	if off < 0 {
+		off = -off
+	}
+	return t.Year() >= 0 && t.Year() <= 9999 && off%60 == 0 && off < 24*3600
+}
+
+// checkNested: a scalar marshaler whose bare output decoded to d must keep its container well
+// formed: inside an Array and inside a FieldSet the text is strict JSON decoding to [d,null] / {"k":d}.
+func checkNested(fn string, mk func() graphql.Marshaler, d any) (sig, what string) {
+	out, pan := marshalToBytes(graphql.Array{mk(), graphql.Null})
+	if _, class, w := checkWire(out, pan, []any{d, nil}, false); class != "" {
+		return fn + "(in Array):" + class, w
+	}
+	out, pan = marshalToBytes(fieldSet([]string{"k"}, []graphql.Marshaler{mk()}))
+	if _, class, w := checkWire(out, pan, map[string]any{"k": d}, false); class != "" {
+		return fn + "(in FieldSet):" + class, w
+	}
+	return "", ""
+}
+
 func checkTime(tc timeCase) (sig, what string) {
 	t := tc.time()
-	out, pan := marshalToBytes(graphql.MarshalTime(t))
+	mk := func() graphql.Marshaler { return graphql.MarshalTime(t) }
+	out, pan := marshalToBytes(mk())
 	if t.IsZero() {
 		if pan != nil || string(out) != "null" {
 			return "MarshalTime:zero-not-null", fmt.Sprintf("MarshalTime(zero) wrote %s (panic %v)", show(out), pan)
 		}
-		return "", ""
+		return checkNested("MarshalTime", mk, nil)
 	}
 	if pan != nil {
 		return "MarshalTime:panic", fmt.Sprintf("MarshalTime(%v) panicked: %v", t, pan)
 	}
+	// clause 1, for every time.Time: the bytes are a strict JSON text, a string, bare and nested
 	if e := validateJSON(out); e != nil {
 		return "MarshalTime:invalid-json:" + e.Kind, fmt.Sprintf("MarshalTime(%v) wrote %s: %s at %d", t, show(out), e.Kind, e.Off)
 	}
@@ -278,13 +320,25 @@ func checkTime(tc timeCase) (sig, what string) {
 	if err != nil || !isStr {
 		return "MarshalTime:decoded-differs", fmt.Sprintf("MarshalTime(%v) wrote %s which is not a JSON string", t, show(out))
 	}
-	// decoded value equals the original: same calendar fields, nanoseconds and offset
+	if sig, what := checkNested("MarshalTime", mk, s); sig != "" {
+		return sig, fmt.Sprintf("MarshalTime(%v): %s", t, what)
+	}
+	if !timeRepresentable(t) {
+		// RFC 3339 cannot express this value; UnmarshalTime may reject the string or (sub-minute
+		// zone offsets) shift the instant. It must not panic.
+		if _, _, upan := callTarget(&target{call: func(v any) (any, error) { return graphql.UnmarshalTime(v) }}, s); upan != nil {
+			return "UnmarshalTime:panic", fmt.Sprintf("UnmarshalTime(%q) panicked: %v", s, upan)
+		}
+		return "", ""
+	}
+	// clause 2, representable values: same calendar fields, nanoseconds and offset
 	y, mo, dd, h, mi, sec, ns, off, ok := rfc3339Fields(s)
 	_, wantOff := t.Zone()
 	if !ok || y != t.Year() || mo != int(t.Month()) || dd != t.Day() || h != t.Hour() || mi != t.Minute() || sec != t.Second() ||
 		ns != t.Nanosecond() || off != wantOff {
 		return "MarshalTime:decoded-differs", fmt.Sprintf("MarshalTime(%s, offset %ds) wrote %s which does not denote that time", t.Format("2006-01-02T15:04:05.999999999"), wantOff, show(out))
 	}
+	// clause 3, representable values: UnmarshalTime gives the original back
 	back, err := graphql.UnmarshalTime(s)
 	if err != nil {
 		return "UnmarshalTime:rejects-own-wire-form", fmt.Sprintf("MarshalTime wrote %s; UnmarshalTime returned %v", show(out), err)
@@ -302,9 +356,13 @@ func timeGrid() []timeCase {
 		off  int
 	}
 	zones := []zone{{"UTC", zUTC}, {"JST", 9 * 3600}, {"X", 0}, {"A", 3600}, {"B", -5 * 3600}, {"IST", 5*3600 + 1800}, {"NPT", 5*3600 + 2700},
-		{"P14", 14 * 3600}, {"M12", -12 * 3600}, {"P2359", 23*3600 + 59*60}, {"M2359", -(23*3600 + 59*60)}, {"M0001", -60}}
+		{"P14", 14 * 3600}, {"M12", -12 * 3600}, {"P2359", 23*3600 + 59*60}, {"M2359", -(23*3600 + 59*60)}, {"M0001", -60},
+		// beyond RFC 3339 (validity clauses only): 24h and more, sub-minute offsets
+		{"P24", 24 * 3600}, {"M24", -24 * 3600}, {"P25", 25 * 3600}, {"M99", -99 * 3600}, {"LMT", 19*60 + 32}, {"M1s", -1}, {"P235959", 24*3600 - 1}}
 	dates := [][3]int{{0, 1, 1}, {0, 2, 29}, {0, 12, 31}, {1, 1, 1}, {1, 1, 2}, {999, 12, 31}, {1000, 1, 1}, {1582, 10, 10}, {1900, 2, 28}, {1969, 12, 31}, {1970, 1, 1},
-		{2000, 2, 29}, {2024, 2, 29}, {2038, 1, 19}, {2262, 4, 11}, {2262, 4, 12}, {9999, 1, 1}, {9999, 12, 31}}
+		{2000, 2, 29}, {2024, 2, 29}, {2038, 1, 19}, {2262, 4, 11}, {2262, 4, 12}, {9999, 1, 1}, {9999, 12, 31},
+		// beyond RFC 3339 (validity clauses only)
+		{-1, 12, 31}, {-1, 1, 1}, {-1000, 6, 15}, {10000, 1, 1}, {36812, 2, 20}, {99999, 12, 31}, {-292277022399, 1, 1}, {292277026596, 12, 4}}
 	clocks := [][3]int{{0, 0, 0}, {0, 0, 1}, {12, 34, 56}, {23, 59, 59}, {3, 14, 7}}
 	nanos := []int{0, 1, 10, 100, 999, 1000, 999999, 1000000, 100000000, 120000000, 123456789, 500000000, 999999999, 999999990, 900000000}
 	var out []timeCase
@@ -329,7 +387,7 @@ func runTimeDomain() {
 		first := a == 0
 		jobs = append(jobs, func(r *jobResult) {
 			for i, tc := range part {
-				r.evals++
+				r.evals += 3 // bare, in an Array, in a FieldSet
 				if !tc.time().IsZero() {
 					r.nontriv(fmt.Sprintf("time:%+v", tc))
 				}
@@ -342,7 +400,7 @@ func runTimeDomain() {
 			}
 		})
 	}
-	runDomain("times", "18 dates (years 0,1,999,1000,1582,1900,1969,1970,2000,2024,2038,2262,9999) x 5 clocks x 15 nanosecond patterns x 12 zones (UTC and fixed offsets -23:59..+23:59, whole minutes)", jobs)
+	runDomain("times", "26 dates (years 0,1,999,1000,1582,1900,1969,1970,2000,2024,2038,2262,9999 and, for the validity clauses only, -292277022399,-1000,-1,10000,36812,99999,292277026596) x 5 clocks x 15 nanosecond patterns x 19 zones (UTC, fixed offsets -23:59..+23:59 and, validity only, +-24h, +25h, -99h, +00:19:32, -00:00:01, +23:59:59); each bare, in an Array and in a FieldSet", jobs)
 }
 
 // ---- Duration ------------------------------------------------------------------------------
@@ -432,6 +490,9 @@ func checkDuration(dv time.Duration) (sig, what string) {
 	s, isStr := d.(string)
 	if err != nil || !isStr {
 		return "MarshalDuration:decoded-differs", fmt.Sprintf("MarshalDuration(%d) wrote %s which is not a JSON string", int64(dv), show(out))
+	}
+	if sig, what := checkNested("MarshalDuration", func() graphql.Marshaler { return graphql.MarshalDuration(dv) }, s); sig != "" {
+		return sig, fmt.Sprintf("MarshalDuration(%dns): %s", int64(dv), what)
 	}
 	ns, ok := isoDurationNs(s)
 	if !ok {
@@ -531,7 +592,7 @@ func runDurationDomain() {
 		part := grid[a:min(a+chunk, len(grid))]
 		jobs = append(jobs, func(r *jobResult) {
 			for _, d := range part {
-				r.evals++
+				r.evals += 3 // bare, in an Array, in a FieldSet
 				if d != 0 {
 					r.nontriv("duration:" + strconv.FormatInt(int64(d), 10))
 				}
@@ -586,18 +647,22 @@ func uuidGrid() []uuid.UUID {
 }
 
 func checkUUID(id uuid.UUID) (sig, what string) {
-	out, pan := marshalToBytes(graphql.MarshalUUID(id))
+	mk := func() graphql.Marshaler { return graphql.MarshalUUID(id) }
+	out, pan := marshalToBytes(mk())
 	if id == uuid.Nil {
 		if pan != nil || string(out) != "null" {
 			return "MarshalUUID:nil-not-null", fmt.Sprintf("MarshalUUID(Nil) wrote %s", show(out))
 		}
-		return "", ""
+		return checkNested("MarshalUUID", mk, nil)
 	}
 	h := hex.EncodeToString(id[:])
 	canon := h[0:8] + "-" + h[8:12] + "-" + h[12:16] + "-" + h[16:20] + "-" + h[20:32]
 	d, class, w := checkWire(out, pan, canon, false)
 	if class != "" {
 		return "MarshalUUID:" + class, fmt.Sprintf("MarshalUUID(%s): %s", h, w)
+	}
+	if sig, what := checkNested("MarshalUUID", mk, d); sig != "" {
+		return sig, fmt.Sprintf("MarshalUUID(%s): %s", h, what)
 	}
 	for _, x := range []any{d, []byte(d.(string))} {
 		back, err := graphql.UnmarshalUUID(x)
@@ -615,7 +680,7 @@ func runUUIDDomain() {
 	grid := uuidGrid()
 	runDomain("uuids", fmt.Sprintf("%d UUIDs: nil, max, every single bit set/cleared, every repeated nibble, 16 versions x 16 variant nibbles", len(grid)), []job{func(r *jobResult) {
 		for i, id := range grid {
-			r.evals++
+			r.evals += 3 // bare, in an Array, in a FieldSet
 			if id != uuid.Nil {
 				r.nontriv("uuid:" + hex.EncodeToString(id[:]))
 			}
